@@ -17,6 +17,9 @@ func init() {
 			for k, v := range c12Pads {
 				data[k] = v
 			}
+			for k, v := range c12Extra() {
+				data[k] = v
+			}
 			s, f := treeStats(a)
 			return execCase("tree", a, data, s >= 2 && f)
 		},
